@@ -1470,6 +1470,7 @@ class ConfigList(UserList):
         if isinstance(value, str):
             if self.factory:
                 obj = config_line_factory(
+                    all_lines=self.data,
                     line=value,
                     syntax=self.syntax,
                 )
